@@ -43,7 +43,9 @@ NormW(j) ==
             paid |-> FnOf(j.led.paid, LAMBDA r : r.b, LAMBDA r : r.x),
             wdl |-> FnOf(j.led.wdl, LAMBDA r : r.b, LAMBDA r : r.x),
             deliv |-> j.led.deliv, honest |-> j.led.honest, forced |-> j.led.forced],
-   now |-> j.now]
+   now |-> j.now,
+   t |-> [inst |-> j.t.inst, admin |-> j.t.admin, pending |-> j.t.pending, minTime |-> j.t.minTime,
+          trader |-> j.t.trader, routes |-> j.t.routes]]
 
 \* evaluated once (constant level): the observed world after every line
 W == [i \in 1..NLines |-> NormW(Rec[i].post)]
@@ -86,6 +88,7 @@ StateAtoms(p, o) ==
   \cup R(FnAtom(p.led.wdl, o.led.wdl), "led.wdl") \cup R(p.led.deliv # o.led.deliv, "led.deliv")
   \cup R(p.led.radjN # o.led.radjN \/ p.led.radjL # o.led.radjL, "led.radj")
   \cup R(p.now # o.now, "now")
+  \cup R(TOwn(p.t) # TOwn(o.t), "t.own") \cup R(p.t.inst # o.t.inst \/ p.t.trader # o.t.trader \/ p.t.routes # o.t.routes, "t.cfg")
 
 \* messages are compared kind by kind (relative order of different kinds is not part of any property)
 IsKind(m, k, lstDen, wantLst) ==
@@ -101,7 +104,7 @@ OracleOk(pm, om, m, lstDen) ==
   IF m = "withdraw"
   THEN \A x \in ToSet(Sub(om, "oracle", lstDen, FALSE)) : \E y \in ToSet(Sub(pm, "oracle", lstDen, FALSE)) : ProjOn(x, y) = y
   ELSE SameKind(pm, om, "oracle", lstDen, FALSE)
-KnownKinds == {"tf_mint", "tf_burn", "send", "ibc", "oracle", "tf_create"}
+KnownKinds == {"tf_mint", "tf_burn", "send", "ibc", "oracle", "tf_create", "swap_in", "swap_out", "t_send", "t_ibc"}
 MsgAtoms(pm, om, m, lstDen) ==
   R(~SameKind(pm, om, "tf_mint", lstDen, FALSE), "msg.tf_mint")
   \cup R(~SameKind(pm, om, "tf_burn", lstDen, FALSE), "msg.tf_burn")
@@ -110,6 +113,8 @@ MsgAtoms(pm, om, m, lstDen) ==
   \cup R(~SameKind(pm, om, "ibc", lstDen, FALSE), "msg.ibc.nat")
   \cup R(~SameKind(pm, om, "ibc", lstDen, TRUE), "msg.ibc.lst")
   \cup R(~OracleOk(pm, om, m, lstDen), "msg.oracle")
+  \cup R(~SameKind(pm, om, "swap_in", lstDen, FALSE) \/ ~SameKind(pm, om, "swap_out", lstDen, FALSE), "msg.swap")
+  \cup R(~SameKind(pm, om, "t_send", lstDen, FALSE) \/ ~SameKind(pm, om, "t_ibc", lstDen, FALSE), "msg.t_spend")
   \cup R(\E x \in ToSet(om) : x.k \notin KnownKinds, "msg.unknown")
 \* wire-level facts recorded by the simulator's own protobuf reader (C19)
 WireAtoms(om, fam) ==
@@ -141,6 +146,8 @@ AtomProps(atom, m) ==
      [] atom = "led.paid" -> {"C02", "C05"}
      [] atom = "led.radj" -> {"C10"}
      [] atom = "now" -> {}
+     [] atom = "t.own" -> {"C12"}
+     [] atom \in {"t.cfg", "msg.swap", "msg.t_spend"} -> {"C13"}
      [] atom = "msg.tf_mint" -> {"C03", "C04", "C19"}
      [] atom = "msg.tf_burn" -> {"C03", "C19"}
      [] atom = "msg.send.nat" -> {"C02"} \cup R(m = "withdraw", "C05") \cup R(m \in {"receive_rewards", "fee_withdraw"}, "C11")
@@ -164,6 +171,10 @@ ReasonProps(reason, m) ==
     [] reason \in {"no_lst", "fee_exceeds_reward"} -> {"C11"}
     [] reason = "unauthorized_hook" -> {"C08", "C09"}
     [] reason = "no_funds" -> IF m = "receive_rewards" THEN {"C11"} ELSE {"C06"}
+    [] reason \in {"not_trader", "route_not_allowed", "denom_mismatch", "bad_local_receiver", "bad_ibc_receiver"} -> {"C13"}
+    [] reason = "unauthorized" /\ m \in {"t_spend", "t_update_config"} -> {"C13"}
+    [] reason = "unauthorized" /\ m \in {"t_transfer_ownership", "t_revoke_ownership_transfer"} -> {"C12"}
+    [] reason \in {"too_early", "not_nominee"} /\ m = "t_accept_ownership" -> {"C12"}
     [] reason = "unauthorized" -> {"C08"} \cup R(m \in {"circuit_breaker", "resume_contract"}, "C10")
                                   \cup R(m \in {"transfer_ownership", "revoke_ownership_transfer"}, "C12")
                                   \cup R(m = "recover", "C07")
@@ -186,7 +197,9 @@ SuccessProps(w, call) ==
      [] m = "receive_unstaked_tokens" -> {"C06", "C09"}
      [] m = "receive_rewards" -> {"C09", "C11"}
      [] m \in {"circuit_breaker", "resume_contract"} -> {"C10"}
-     [] m \in {"accept_ownership", "transfer_ownership", "revoke_ownership_transfer"} -> {"C12"}
+     [] m \in {"accept_ownership", "transfer_ownership", "revoke_ownership_transfer",
+               "t_accept_ownership", "t_transfer_ownership", "t_revoke_ownership_transfer"} -> {"C12"}
+     [] m \in {"t_swap_in", "t_swap_out", "t_spend", "t_update_config"} -> {"C13"}
      [] OTHER -> {})
   \cup R(w.c.cfg.oracle = None /\ m \in {"liquid_stake", "submit_batch", "withdraw", "receive_rewards", "resume_contract"}, "C15")
 
